@@ -2,10 +2,8 @@ import AlatorVerif.Driver.Uist
 import AlatorVerif.Driver.Jura
 import AlatorVerif.Driver.Broker
 import AlatorVerif.Driver.Perf
-import AlatorVerif.Driver.Server
 import AlatorVerif.Driver.Sched
 import AlatorVerif.Driver.Strat
-import AlatorVerif.Driver.Cb
 import AlatorVerif.Driver.Http
 import AlatorVerif.Driver.Srv
 import AlatorVerif.Driver.Cost
@@ -17,12 +15,11 @@ def main (args : List String) : IO UInt32 := do
   | "jura" :: _ => Drv.Jura.main; return 0
   | "broker" :: r => Drv.Broker.main r; return 0
   | "perf" :: r => Drv.Perf.main r; return 0
-  | "server" :: r => Drv.Server.main r; return 0
   | "server-uist" :: r => Drv.Srv.mainUist r; return 0
   | "server-jura" :: r => Drv.Srv.mainJura r; return 0
   | "sched" :: r => Drv.Sched.main r; return 0
   | "strat" :: r => Drv.Strat.main r; return 0
-  | "cb" :: _ => Drv.Cb.main; return 0
   | "cost" :: _ => Drv.Cost.main; return 0
-  | "http" :: r => Drv.Http.main r; return 0
+  | "http-uist" :: r => Drv.Http.mainUist r; return 0
+  | "http-jura" :: r => Drv.Http.mainJura r; return 0
   | _ => IO.eprintln "usage: driver <uist|jura|broker|perf|server|sched|strat|cb|http>"; return 2
